@@ -72,7 +72,68 @@ def input_classes(t):
         cols_sorted=cols == sorted(cols),
         has_nonnumeric=any(str(x) in ("str", "object", "string") or str(x).startswith("datetime") for x in dts),
         has_na=bool(t.isna().to_numpy().any()) if len(t) else False,
+        object_col=any(x == object for x in dts),
+        nullable_num=any(isinstance(x, (pd.Int64Dtype, pd.Float64Dtype)) for x in dts),
     )
+
+
+def mode_cat_zero_counts(t, dropna):
+    """Input class of a known defect of ``mode``: a categorical column with categories none of which occurs among
+    the counted values (zero rows, or only NA with dropna=True): every per-category count is 0 == max count."""
+    cols = [t[c] for c in t.columns] if isinstance(t, pd.DataFrame) else [t]
+    for s_ in cols:
+        if isinstance(s_.dtype, pd.CategoricalDtype) and len(s_.dtype.categories):
+            vc = s_.value_counts(dropna=dropna)
+            if len(vc) and int(vc.max()) == 0:
+                return True
+    return False
+
+
+def undefined_moment_inf_to_na(want, t, ddof):
+    """var/std/sem with ddof >= number of valid values is undefined.  pandas answers NaN for numpy-backed columns,
+    but for Int64/Float64 (masked) columns it divides by ``n - ddof <= 0`` unguarded: var/std = inf when the values
+    differ (even for a NEGATIVE denominator), <NA> when they are equal (0/0), while sem of the same data is <NA>.
+    That inf is an artefact of the degenerate input, not a statistic: it is read as missing (<NA>), which is what
+    pandas returns for every other dtype/statistic of this class.  Only the entries of masked columns with
+    count <= ddof are touched, and only when pandas' value there is infinite."""
+    masked = (pd.Int64Dtype, pd.Float64Dtype, pd.BooleanDtype)
+    if isinstance(t, pd.Series):
+        if isinstance(t.dtype, masked) and int(t.count()) <= ddof and isinstance(want, (float, np.floating)) and np.isinf(want):
+            return pd.NA
+        return want
+    if isinstance(want, pd.Series) and t.columns.is_unique and want.index.is_unique:
+        want = want.copy()
+        for c in want.index:
+            if c in t.columns and isinstance(t[c].dtype, masked) and int(t[c].count()) <= ddof:
+                v = want[c]
+                if not D.F._isna(v) and np.isinf(float(v)):
+                    want[c] = pd.NA if isinstance(want.dtype, masked) else np.nan
+    return want
+
+
+def nat_last(x):
+    """Stable per-column reordering of a datetime/timedelta/categorical mode result: valid values first, NaT/NaN after.
+
+    ``Series.mode(dropna=False)`` is documented to return the modes "in sorted order"; for datetime64/timedelta64
+    pandas sorts the int64 view, which puts NaT (int64 min) FIRST, and for categoricals it sorts the codes, which puts
+    NaN (code -1) FIRST - contrary to its own ``sort_values`` and to what it does for float/str/nullable columns
+    (NaN/NA last).  Where the missing value sits among several modes is therefore a pandas artefact; the set of
+    modes, their multiplicity and the order of the valid ones are compared."""
+
+    def fix(s_):
+        if (s_.dtype.kind in "mM" or isinstance(s_.dtype, pd.CategoricalDtype)) and s_.isna().any():
+            v = pd.concat([s_[s_.notna()], s_[s_.isna()]])
+            v.index = s_.index
+            return v
+        return s_
+
+    if isinstance(x, pd.Series):
+        return fix(x)
+    if isinstance(x, pd.DataFrame) and x.columns.is_unique:
+        x = x.copy()
+        for i in range(x.shape[1]):
+            x.isetitem(i, fix(x.iloc[:, i]))
+    return x
 
 
 def apply_red(obj, r):
@@ -180,6 +241,10 @@ def check(spec):
         if sig["fam"] == "moment":
             cnt = tgt.count()
             sig["ddof_ge_n"] = bool(kw.get("ddof", 1) >= (int(cnt.min()) if isinstance(cnt, pd.Series) and len(cnt) else int(cnt) if not isinstance(cnt, pd.Series) else 0))
+            if sig["ddof_ge_n"] and sig["nullable"] and kw.get("axis", 0) == 0:
+                want = undefined_moment_inf_to_na(want, tgt, kw.get("ddof", 1))
+        if r["name"] == "mode":
+            sig["mode_cat_zero_counts"] = mode_cat_zero_counts(tgt, kw.get("dropna", True))
         if r["name"] == "prod" and int_prod_overflows(tgt):
             # int64 products that wrap around: pandas' own value is an artefact of evaluation order/dtype
             raise Reject("integer product overflows int64")
@@ -195,6 +260,11 @@ def check(spec):
             if isinstance(v.__cause__, NotImplementedError):
                 count("dask-notimplemented")
                 raise Reject("dask refuses: NotImplementedError") from None
+            if sig.get("object_col") and isinstance(v.__cause__, ValueError) and str(v.__cause__).endswith("not supported with object series"):
+                # explicit, deliberate refusal while building the graph (dask_expr/_util.py:_raise_if_object_series:
+                # mean/var/std/sem of an object-dtype Series), same standing as NotImplementedError
+                count("dask-refuses-object-series")
+                raise Reject("dask refuses: not supported with object series") from None
             raise
     what = f"{r['name']}({kw})"
     if r["name"] == "value_counts":
@@ -210,6 +280,8 @@ def check(spec):
     # which missing-value sentinel (None / nan / pd.NA) sits inside an OBJECT-dtype result (mixed-dtype
     # reductions over zero rows, ...) is representation, not value
     got, want = canon_missing(got), canon_missing(want)
+    if r["name"] == "mode" and kw.get("dropna") is False and isinstance(got, (pd.Series, pd.DataFrame)):
+        got, want = nat_last(got), nat_last(want)
     # pandas' result dtype with min_count depends on whether the threshold was reached (int -> float NaN):
     # data-dependent like the empty-partition case, same acceptance rule (dask computed what its meta says)
     data_dependent = maybe_empty or bool(kw.get("min_count"))
